@@ -1,8 +1,9 @@
 import Girc.Proofs.Pure
+import Girc.Proofs.ProtocolA
 import Girc.Gen.Facts
 /- C09 — SASL delivers the exact credential (pure part: chunking, PLAIN, base64). Property theorems only. -/
 namespace Girc.Props.C09
-open Girc Girc.Model Girc.Proofs.Pure
+open Girc Girc.Model Girc.Spec Girc.Proofs.Pure Girc.Proofs.ProtocolA
 
 theorem gen_chunk_size : Gen.const_saslChunkSize = 400 := by decide
 
@@ -34,5 +35,51 @@ theorem chunks_exact (auth : Bytes) (hne : auth ≠ []) :
 /-- The repaired defect (399-byte chunks) on a small instance of the same loop shape is covered by
     `chunks_exact`; concrete witnesses are replayed against the implementation by the harness. -/
 example : saslChunks [0x41] = [[0x41]] := by decide
+
+/-! ### Protocol part -/
+
+/-- Once authentication is in progress, CAP END is written only for the success numeric. -/
+theorem sasl_end_only_on_success (cfg : Cfg) (cs : CState) (e : Event) (m : SaslCfg) (cs' : CState) (outs : List Out)
+    (hs : cfg.sasl = some m) (hc : isSaslCmd e.command = true)
+    (h : handleCommand cfg cs e = .ok (cs', outs)) (hend : Out.write capEnd ∈ outs) : e.command = c903 :=
+  Proofs.ProtocolA.sasl_end_only_on_success cfg cs e m cs' outs hs hc h hend
+
+/-- Any SASL failure numeric injects a local ERROR and writes nothing. -/
+theorem sasl_failure_injects_error (cfg : Cfg) (cs : CState) (e : Event) (m : SaslCfg)
+    (hs : cfg.sasl = some m) (ht : cfg.disableTracking = false)
+    (hc : e.command = c902 ∨ e.command = c904 ∨ e.command = c905 ∨ e.command = c906 ∨ e.command = c908) :
+    handleCommand cfg cs e = .ok (cs, [Out.inject (errorEvent (sClosing ++ e.last))]) :=
+  Proofs.ProtocolA.sasl_failure_injects_error cfg cs e m hs ht hc
+
+/-- A mechanism that gives up (empty response) injects a local ERROR and writes nothing. -/
+theorem sasl_giveup_injects_error (cfg : Cfg) (cs : CState) (e : Event) (m : SaslCfg)
+    (hs : cfg.sasl = some m) (ht : cfg.disableTracking = false) (hc : e.command = cAUTHENTICATE)
+    (hg : m.encode cs.saslCalls e.params = []) :
+    ∃ cs', handleCommand cfg cs e = .ok (cs', [Out.inject (errorEvent (sClosingSasl ++ m.method ++ sFailed ++ e.last))]) :=
+  Proofs.ProtocolA.sasl_giveup_injects_error cfg cs e m hs ht hc hg
+
+/-- Otherwise the response goes out as the chunk sequence of `saslChunks` (see `chunks_exact`). -/
+theorem sasl_response_chunked (cfg : Cfg) (cs : CState) (e : Event) (m : SaslCfg)
+    (hs : cfg.sasl = some m) (ht : cfg.disableTracking = false) (hc : e.command = cAUTHENTICATE)
+    (hg : m.encode cs.saslCalls e.params ≠ []) :
+    ∃ cs', handleCommand cfg cs e = .ok (cs',
+      (saslChunks (m.encode cs.saslCalls e.params)).map fun c => Out.write { command := cAUTHENTICATE, params := [c] }) :=
+  Proofs.ProtocolA.sasl_response_chunked cfg cs e m hs ht hc hg
+
+/-- The injected ERROR ends the connection with `ErrEvent` carrying its text: a failure line makes
+    `Connect` return an error instead of registering unauthenticated. -/
+theorem sasl_failure_ends_connection (cfg : Cfg) (r : Run) (line : Bytes) (e : Event) (m : SaslCfg)
+    (hr : r.ended = .running) (hp : parseEvent line = some e)
+    (hs : cfg.sasl = some m) (ht : cfg.disableTracking = false)
+    (hc : e.command = c902 ∨ e.command = c904 ∨ e.command = c905 ∨ e.command = c906 ∨ e.command = c908) :
+    ∃ r', stepLine cfg r line = .ok r' ∧ r'.ended = .errEvent (sClosing ++ e.last) ∧ r'.written = r.written :=
+  Proofs.ProtocolA.sasl_failure_ends_connection cfg r line e m hr hp hs ht hc
+
+/-- Non-interference of the logs in the secret: for a sensitive event nothing derived from the
+    parameters reaches either writer, on the normal and on the dropped-event path. -/
+theorem no_secret_logged (e : Event) (ps : List Bytes) (dropped echo : Bool) :
+    debugLine true dropped e = debugLine true dropped { e with params := ps } ∧
+    outLine true echo e = none :=
+  Proofs.ProtocolA.no_secret_logged e ps dropped echo
 
 end Girc.Props.C09
